@@ -39,6 +39,11 @@ CHECKS = {
    text="2-3 texts built from 1-5 shared fragments (1-4 byte codepoints) with 0-3 codepoints of noise, re-ordered on the other sides; simple and complex transpositions; sources of 1-2 ranges inside a fragment, across adjacent fragments (re-segmentation), partly or wholly outside; source side Auto/ByIndex; with and without source id. A covered source must transpose, its builders must be accepted, the transposed annotation must lie in the other resource with the expected pieces and identical text piece by piece, the new transposition must link sides with identical text, and transposing back must return the original offsets; an uncovered source must be refused and leave the store unchanged. Held on the setups observed.",
    note="Trusted: the construction in harness/src/c16.rs (a source is covered iff every position of it lies inside a fragment of its side). Transpositions within a single resource and TransposeConfig variants other than source side / ids are not exercised.",
    ref="5/C16"),
+ "C17": dict(
+   technique="runtime oracle monitor: every annotation of seeded hostile stores is exported with to_webannotation, parsed with serde_json (well-formedness oracle) and its target and body compared with the shadow model (selector structure, resource IRIs, absolute offsets, value content and JSON type)",
+   text="Stores from seeded histories with hostile identifiers (quotes, backslashes, control characters, non-BMP) and hostile values (such strings, extreme numbers, booleans, null, nested lists, datetimes), all selector kinds, plus annotations using W3C annotation-level predicates; each annotation is exported under a seeded WebAnnoConfig (IRI prefixes, extra context, namespaces, extra target template) and must parse as one JSON object whose target lists the same resources and offsets (sequence for directional, multiset for composite/multi selectors) and whose body carries every data value with the same content and type. Held on the annotations observed.",
+   note="Trusted: serde_json; the id->IRI rule re-stated in harness/src/c17.rs. Not judged: targets that point at annotations without public id, several values for one predicate, key/data selectors nested in complex targets (not generated), non-finite floats (not generated).",
+   ref="5/C17"),
  "C15": dict(
    technique="runtime monitoring: round-trip differential on stores reached by seeded histories through the STAM CSV files (manifest, annotations table, dataset tables, .txt resources) - canonical observation with values reduced to their text",
    text="Final states of seeded histories (all selector kinds incl. complex selectors with mixed and range-compressed sub-selectors, end-aligned and relative offsets, gaps, ids without ';') are saved as STAM CSV and loaded again; resources and texts, keys, data ids and value text, annotation ids, data references, targets (kinds, referenced items, absolute ranges, selected text) and every reverse lookup must be equal. Held on the stores observed; the two temp-id findings are recorded.",
